@@ -66,7 +66,7 @@ func (c *c02Worker) Run(path []SOp) (bfs.Outcome, error) {
 	if err != nil {
 		return bfs.Outcome{}, err
 	}
-	out := bfs.Outcome{Obs: tr.Obs, Canon: CanonRecs(tr.Recs, c.keys...) + "|" + CanonPropMax(tr.Released, c.keys...)}
+	out := bfs.Outcome{Obs: tr.Obs, Canon: CanonRecs(tr.Recs, c.keys...) + "|" + CanonPropMax(tr.Released, c.keys...) + "|" + CanonRoutes(path, tr.Released, c.keys...)}
 	out.Viol = propInvariant(tr.Released)
 	return out, nil
 }
